@@ -605,6 +605,41 @@ func runC07(w *World, r *Report) {
 			fmt.Sprintf("only %d of the 2 pass-through handler checks (pre, post) compare the handler type with `any` itself: a handler typed on another interface (fmt.Stringer …) is accepted on a pass-through node, is never re-checked against the type inferred later, and its wrapper panics at run time (unrecovered)", n))
 	}
 
+	// ---- a keyed node is typed by its key wrapper whatever is behind it: graphNode.inputType / outputType look at the
+	// input / output key before they ask the sub graph or the runnable for its own type
+	r.Rule("C07.keyed-node-type", "graphNode.inputType / outputType answer with a component's or sub graph's own type only after the key test (nodeInfo / inputKey / outputKey) has been evaluated", 2)
+	for _, side := range []struct{ fn, key string }{{"graphNode.inputType", "inputKey"}, {"graphNode.outputType", "outputKey"}} {
+		f := w.Fn("compose", side.fn)
+		fKey := w.Field("compose", "nodeInfo", side.key)
+		fNI := w.Field("compose", "graphNode", "nodeInfo")
+		isKeyTest := func(in ssa.Instruction) bool {
+			iff, ok := in.(*ssa.If)
+			if !ok {
+				return false
+			}
+			fs := map[*types.Var]bool{}
+			fieldsReadBy(iff.Cond, 0, fs)
+			return fs[fKey.Origin()] || fs[fNI.Origin()]
+		}
+		ownType := func(in ssa.Instruction) bool {
+			ret, ok := in.(*ssa.Return)
+			if !ok || len(ret.Results) != 1 || isNilConst(ret.Results[0]) {
+				return false
+			}
+			if c, ok := ret.Results[0].(*ssa.Call); ok {
+				if sc := staticCallee(c); sc != nil && sc.Name() == "TypeOf" {
+					return false // the map[string]any answer of the key wrapper
+				}
+			}
+			return true
+		}
+		skip, wit := pathQuery{fn: f, goal: ownType, avoid: isKeyTest}.exists()
+		r.Check(!skip, "C07.keyed-node-type", side.fn+": the key decides before the node's own type is reported", f.Pos(), "no return of the node's own type bypasses the "+side.key+" test", "the node's own type can be reported without looking at "+side.key+" ("+wit+"): a Graph / Chain / Workflow added as a node with the key option declares the sub graph's type instead of map[string]any — a wrongly typed predecessor is accepted (and dies in the key wrapper at run time with an interface conversion error), the correctly typed map[string]any predecessor is rejected")
+	}
+
+	r.Rule("C07.state-handlers-validated", "the state-type / value-type validation of a pre-handler and of a post-handler in addNode are each reached however the handlers were declared and whether or not the other one is present (shared with C20.state-handler-validated)", 6)
+	stateHandlerValidationReached(w, r, "C07.state-handlers-validated")
+
 	// ---- branch handler index
 	r.Rule("C07.branch-handler-index", "calculateBranch passes the loop index over writeToBranches (the same index as the branch's input copy) to the pre-branch handler", 1)
 	branchSlotIsLoopIndex(w, r, "C07.branch-handler-index")
